@@ -743,6 +743,15 @@ func goTcGenPayload(a []string) string {
 
 // --------------------------------------------------------------------------------------------------- generator
 
+// key pairs whose Ed25519 PUBLIC key starts with 1, 2 and 3 zero bytes (found by search, ~256 tries per zero byte; cached
+// here and in corpus/C19/zero_prefix_keys.ops): big.Int.Bytes() of such a key is shorter than 32 bytes, so the
+// get-method path must left-pad
+var zeroKeySeeds = []string{
+	"000000000000003c000000000000000000000000000000000000000000000004", "0000000000000055000000000000000000000000000000000000000000000005",
+	"000000000000185c00000000000000000000000000000000000000000000000f", "0000000000001eba00000000000000000000000000000000000000000000000b",
+	"00000000001eb031000000000000000000000000000000000000000000000009", "00000000002b2b6a00000000000000000000000000000000000000000000000e",
+}
+
 var failModes = []string{"fail:err", "fail:code", "fail:empty", "fail:cell", "fail:two", "fail:nil", "fail:null", "fail:nan",
 	"fail:slice", "fail:builder", "fail:cont", "fail:tuple", "fail:badsum", "fail:emptysum", "fail:intnull", "fail:nullint", "fail:bigcode"}
 
@@ -880,6 +889,31 @@ func genC19(g *h.G) {
 		}
 		g.Count(fmt.Sprintf("payload_%s_time%d", what, kind))
 		g.Emit("tc.payload", h.Hex(secret), h.Hex(p), fmt.Sprint(nowNs), fmt.Sprint(life))
+	}
+	// ---- public keys with leading zero bytes, through the get-method path and the state-init path
+	for _, seed := range zeroKeySeeds {
+		for _, ver := range []wallet.Version{wallet.V3R2, wallet.V4R2, wallet.V5R1} {
+			w := mkWallet(ver, seed)
+			lead := 0
+			for lead < 32 && w.pub[lead] == 0 {
+				lead++
+			}
+			g.Count(fmt.Sprintf("pubkey_leading_zero_bytes_%d", lead))
+			siTable := cellTable(func() *boc.Cell { c := boc.NewCell(); _ = tlb.Marshal(c, w.si); return c }())
+			ts := now.Unix() - int64(g.Rng.Intn(1000))
+			payload := refPayload("secret", g.Bytes(8), uint64(now.Unix()))
+			for _, getter := range []string{getterFor("key", w.pub), "fail:err"} {
+				c := &tcCase{life: life, payloadOk: "1", domOk: "1", address: w.id.String(), ts: ts, domain: "example.org", payload: payload,
+					getter: getter, stateInit: siTable}
+				c.sig = ed25519.Sign(w.priv, refMessage(w.id.Workchain, w.id.Address[:], "example.org", ts, payload))
+				// candidates: the key itself and the key a RIGHT-padding conversion would produce
+				wrong := make([]byte, 32)
+				copy(wrong, w.pub[lead:])
+				c.cand = [][]byte{w.pub, wrong, zero}
+				c.emit(g, nowNs, known, seed)
+				g.Emit("go.tc.honest", fmt.Sprint(int(ver)), seed, h.Hex([]byte("example.org")), map[bool]string{true: "key", false: "fail:err"}[getter != "fail:err"])
+			}
+		}
 	}
 	// ---- proofs
 	nProof := g.Scale(12, 350)
